@@ -273,7 +273,7 @@ Section ClientFacts.
     man_delete H parse_mt subject_of main srv exch s rst d = (s', rst', t, res) -> all_allowed t.
   Proof.
     intros Hd. unfold man_delete.
-    destruct (indexable (d_mt d) && negb (rs_supported rst)).
+    destruct (indexable_del (d_mt d) && negb (rs_supported rst)).
     - destruct (man_fetch _ _ _ _ s d) as [[s1 t1] res1] eqn:E1.
       apply man_fetch_allowed in E1; auto.
       destruct res1; try (intro X; inv_pair X; exact E1).
